@@ -246,6 +246,31 @@ func TestC16(t *testing.T) {
 				return
 			}
 		}
+		// the station then shows up under one more address of the other family (a new host: that frame may allocate);
+		// frames from the addresses that were tracked before must stay free of allocations
+		extra := ref.Eth(w.RouterMAC, mac, 0x0800, ref.IP4(ref.IP4Hdr{TotalLen: -1, TTL: 64, Proto: 17, Checksum: -1, Src: [4]byte{192, 168, 0, byte(90 + c.Client)}, Dst: [4]byte{192, 168, 0, 11}}, ref.UDP(40000, 9999, -1, 0, []byte("x"))))
+		eb := make([]byte, len(extra), packet.EthMaxSize)
+		copy(eb, extra)
+		s.Parse(eb)
+		if a := testing.AllocsPerRun(1, round); a != 0 {
+			{
+				// the first measured round after the new address decides: the situation is created once more on a fresh session to confirm
+				s2, _ := newSession(defaultNIC())
+				defer closeSession(s2)
+				r2 := func() {
+					for _, f := range frames {
+						s2.Parse(f)
+					}
+				}
+				r2()
+				r2()
+				s2.Parse(eb)
+				if a3 := testing.AllocsPerRun(1, r2); a3 != 0 {
+					rec.Violation(tb, "tracked-rotation", "c16-allocs-after-new-address", c, "after the station was seen under one more IPv4 address, a round over its %d already tracked addresses costs %.0f (and %.0f on a fresh session) allocations", len(frames), a, a3)
+					return
+				}
+			}
+		}
 		rec.NonTrivial(drv.HashJSON(c), func() interface{} { return c })
 	})
 
